@@ -10,6 +10,17 @@ CLAIMED = {
    text='Theorems c07_decode_exact (for ALL byte strings the mirrored decoder equals the ABI-layout decoder), c07_roundtrip, c07_field_sound (reads inside the buffer, offsets/lengths < 2^32, u8 < 256), struct-level versions for the five payloads; the Rust decoder is run on canonical and mutated encodings and compared with model and specification.',
    note='Trusted: as C06; out-of-bounds freedom of the implementation rests on the managed buffer API (exercised, not proved).'),
 }
+CLAIMED.update({
+ 'C01': dict(section='8/C01', technique='Coq proof (soundness/completeness/window/digest-binding of approveMessages over all hash and verifier functions) + differential correspondence of the real gateway in the Rust VM against the model with keccak-256 executed in Coq',
+   text='Theorems c01_sound, c01_complete, c01_out_of_window, c01_digest_binding, c01_inv_reachable over a Gallina model of gateway auth/lib (raw-byte decoding of batch and proof included), for every hash and verifier function and every reachable state; the real contract is run on generated histories with real ed25519 proofs and compared step by step (status, return data, events, storage diff) with the model.',
+   note='Trusted: Coq kernel; hand-written model tied by the correspondence; signature oracle = table of honestly produced signatures; keccak/ed25519 outside the proofs (collision freedom only as explicit hypotheses).'),
+ 'C02': dict(section='8/C02', technique='Coq proof (monotone lifecycle, first-wins, validate spec, at-most-once by induction over histories, binding) + differential correspondence in the Rust VM',
+   text='Theorems c02_step_monotone, c02_rank_monotone, c02_first_wins, c02_validate_spec, c02_at_most_once, c02_binding for all operation histories of the gateway model; the real contract is compared step by step on generated histories with duplicate / re-sent ids and right/wrong validators.',
+   note='Trusted: as C01.'),
+ 'C03': dict(section='8/C03', technique='Coq proof (rotation effect, exact acceptance predicate of signer sets, epoch/hash bijection invariant over all histories, operator vs non-operator, operatorship) + differential correspondence in the Rust VM',
+   text='Theorems c03_rotate_sound, c03_validate_signers_spec (+ five rejections), c03_bijection_reachable, c03_registered_forever, c03_operator_complete, c03_out_of_window_*, c03_operatorship; correspondence on rotation histories by operator / others with sets of every age and time steps around the delay.',
+   note='Trusted: as C01; block time monotone; upgrade endpoint not modelled.'),
+})
 NOT_YET = {}
 def main():
     props = [json.loads(l) for l in open(os.path.join(ROOT, 'properties.jsonl'))]
